@@ -53,6 +53,9 @@ def run(tier):
                 continue            # D6 (scanner, known finding of C01/C02/C04) would hide what the formatter does
             for v in e["variants"]:
                 tasks.append({"op": "format_check", "src": v["src"], "ver": progs.VERS[family][0], "_i": i, "_u": e["used"], "_l": v["layout"]})
+        # programs nested many blocks deep (indentation state of the formatter)
+        for j, src in enumerate(progs.deep_sources(check, family, core.seed(), 60 if tier == "quick" else 600)[: (25 if tier == "quick" else 300)]):
+            tasks.append({"op": "format_check", "src": src, "ver": progs.VERS[family][0], "_i": 10 ** 7 + j, "_u": ["deep-nesting"], "_l": "none"})
         res = wp.run([{k: v for k, v in t.items() if not k.startswith("_")} for t in tasks])
         byder = {}
         for t, r in zip(tasks, res):
